@@ -68,5 +68,31 @@ Inductive mcase :=
               (inner_none : mres) (inner : list (cls * mres)) (inner_default : mres)
 | MDefault (r : mres).
 
+(* transport flavours of the TCP server: the per-client exit stack of __client_initializer differs per flavour *)
+Inductive flavour :=
+| FPlain        (* no TLS: the linger callback is registered *)
+| FTlsCompat    (* TLS, ssl_standard_compatible=True: aclosing(lowlevel_client) is entered (close handshake) *)
+| FTls.         (* TLS, ssl_standard_compatible=False: neither *)
+Definition all_flavours : list flavour := [FPlain; FTlsCompat; FTls].
+
+(* what a request handler may yield as the delay for its next request *)
+Inductive delay := DNone | DZero | DPos | DNeg | DInf | DNan | DStr | DHuge.
+Definition all_delays : list delay := [DNone; DZero; DPos; DNeg; DInf; DNan; DStr; DHuge].
+Definition delay_code (d : delay) : Z :=
+  match d with DNone => 0 | DZero => 1 | DPos => 2 | DNeg => 3 | DInf => 4 | DNan => 5 | DStr => 6 | DHuge => 7 end%Z.
+Definition delay_of_code (z : Z) : option delay :=
+  match z with
+  | 0 => Some DNone | 1 => Some DZero | 2 => Some DPos | 3 => Some DNeg | 4 => Some DInf | 5 => Some DNan
+  | 6 => Some DStr | 7 => Some DHuge | _ => None
+  end%Z.
+(* what arming / waiting with that delay raises when no request arrives: None = it simply waits (None, inf);
+   0, 0.5, -1: TimeoutError; NaN: ValueError("deadline is NaN"); "abc": TypeError; 10**400: OverflowError *)
+Definition delay_error (d : delay) : option leaf :=
+  match d with
+  | DNone | DInf => None
+  | DZero | DPos | DNeg => Some KTimeout
+  | DNan | DStr | DHuge => Some KGeneric
+  end.
+
 (* items of the per-client exit stack of AsyncTCPNetworkServer.__client_initializer, in push order *)
 Inductive stack_item := SBind | SSuppress | SLinger | SAclosing | SLogDisconnected | SOnDisconnect.
